@@ -15,3 +15,9 @@ owns = owner("C04")
 
 def specs():
     return [c() for c in api.SPECS] + [c() for c in structures_utils.SPECS]
+
+
+def bounded(tier, seed, pr):
+    from pyvc.boundedrun import run_bounded
+
+    return [run_bounded(pr, "b_api.py", "native_scenarios_commit", args={"groups": ['commit']})]
